@@ -223,16 +223,18 @@ def classify(b: bytes, impl: str, model: str):
     iv, icls, ifl, ipdu = _parse_view(impl)
     mv, mcls, mfl, mpdu = _parse_view(model)
     hb = hx(b)
+    # defects sit in the class that defines _from_pdu / .pdu: key on that parser family
+    ifam, mfam = FAM_OF.get(icls, icls), FAM_OF.get(mcls, mcls)
     if iv == "ok":
         if ipdu is None or ipdu.startswith("!"):
-            return (f"{icls}:pdu-raises:{(ipdu or '!')[1:]}", True, f"typed object whose .pdu raises {ipdu}")
+            return (f"{ifam}:pdu-raises:{(ipdu or '!')[1:]}", True, f"typed object whose .pdu raises {ipdu}")
         if ipdu != hb:
             li, lb = len(ipdu.replace("-", "")) // 2, len(b)
             rel = "longer" if li > lb else "shorter" if li < lb else "same-length"
-            return (f"{icls}:pdu-differs:{rel}", True, f"re-serialised {ipdu} != received {hb}")
+            return (f"{ifam}:pdu-differs:{rel}", True, f"re-serialised {ipdu} != received {hb}")
         bad = [k for k in ifl if k.startswith("!")]
         if bad:
-            return (f"{icls}:{bad[0].split(':')[0]}", False, f"typed object no longer exposes the modelled attributes: {bad[0]}")
+            return (f"{ifam}:{bad[0].split(':')[0]}", False, f"typed object no longer exposes the modelled attributes: {bad[0]}")
     if impl == model:
         return None
     if iv == "raw" and ipdu != hb:
@@ -242,13 +244,13 @@ def classify(b: bytes, impl: str, model: str):
             return (f"{mcls}:class-differs:{icls}", True, f"parsed as {icls}, ISO / registry says {mcls}")
         for k in mfl:
             if ifl.get(k) != mfl[k]:
-                return (f"{icls}:field:{k}", True, f"field {k}: exposed {ifl.get(k)}, ISO position holds {mfl[k]}")
-        return (f"{icls}:fields", True, "exposed fields differ from the ISO layout")
+                return (f"{ifam}:field:{k}", True, f"field {k}: exposed {ifl.get(k)}, ISO position holds {mfl[k]}")
+        return (f"{ifam}:fields", True, "exposed fields differ from the ISO layout")
     if iv == "ok":
         # typed, bytes kept, but the oracle sees no lossless typed reading: the tie is off, the statement holds here
-        return (f"{icls}:typed-where-oracle-{mv}", False, f"typed {icls} (bytes kept) where the oracle says {mv}")
+        return (f"{ifam}:typed-where-oracle-{mv}", False, f"typed {icls} (bytes kept) where the oracle says {mv}")
     if mv == "ok":
-        return (f"{mcls}:{iv}-where-oracle-typed", False, f"{iv} where the oracle has a lossless typed reading {mcls}")
+        return (f"{mfam}:{iv}-where-oracle-typed", False, f"{iv} where the oracle has a lossless typed reading {mcls}")
     return (f"sid{b[0]:02x}:{iv}-where-oracle-{mv}" if b else f"empty:{iv}-where-oracle-{mv}", False, f"{iv} where the oracle says {mv}")
 
 
@@ -257,10 +259,15 @@ def shrink(ctx, b: bytes, cat: str) -> bytes:
     cur = b
     for _ in range(64):
         cands = []
+        for k in (4, 3, 2, 1):
+            if len(cur) > k:
+                cands.append(cur[:-k])
         for i in range(len(cur) - 1, 0, -1):
             cands.append(cur[:i] + cur[i + 1:])
+        for i in range(len(cur) - 4, 1, -1):
+            cands.append(cur[:i] + cur[i + 4:])
         for i in range(1, len(cur)):
-            for v in (0, 1, cur[i] & 0xF0, cur[i] & 0x0F, cur[i] // 2):
+            for v in (0, 1, 0x10, 0x11, cur[i] & 0xF0, cur[i] & 0x0F, cur[i] // 2):
                 if v < cur[i]:
                     cands.append(cur[:i] + bytes([v]) + cur[i + 1:])
         cands = list(dict.fromkeys(c for c in cands if c))
@@ -467,11 +474,12 @@ def mutate(rng, b: bytes, widen):
 
 NRCS = []
 DTCFMTS = []
+FAM_OF = {}
 
 
 def load_rows():
     """the regenerated table, re-read from the file the proofs are checked against"""
-    global NRCS, DTCFMTS
+    global NRCS, DTCFMTS, FAM_OF
     txt = (LEAN / "Gallia" / "Gen" / "C02Registry.lean").read_text()
     rows = []
     pat = re.compile(r'\("(\w+)", "(\w+)", (\d+), (true|false), (none|\(some \d+\)), (true|false), (\d+), (none|\(some \d+\))\)')
@@ -484,6 +492,7 @@ def load_rows():
                      int(m.group(7)), o(m.group(8))))
     NRCS = [int(x) for x in re.search(r"def errorCodes : List Nat := \[([^\]]*)\]", txt).group(1).split(",")]
     DTCFMTS = [int(x) for x in re.search(r"def dtcFormats : List Nat := \[([^\]]*)\]", txt).group(1).split(",")]
+    FAM_OF = {r[0]: r[1] for r in rows}
     if not rows or not NRCS or not DTCFMTS:
         raise RuntimeError("generated registry table is empty")
     return rows
@@ -611,7 +620,7 @@ def run(ctx):
             try:
                 p = o.pdu
             except Exception as e:
-                ctx.disagree(f"constructed:{row[0]}:pdu-raises:{type(e).__name__}",
+                ctx.disagree(f"constructed:{row[1]}:pdu-raises:{type(e).__name__}",
                              f"{row[0]} built from in-range field values cannot be serialised ({type(e).__name__})",
                              {"class": row[0], "fields": exp}, impl=f"pdu=!{type(e).__name__}", model=exp,
                              spec_violated=True, site=f"{row[0]}.pdu")
@@ -623,7 +632,7 @@ def run(ctx):
         ctx.kind("constructed")
         want = exp + " pdu=" + hx(p)
         if m != want:
-            ctx.disagree(f"constructed:{name}:layout", f"{name}(...).pdu does not put the field values at the ISO positions",
+            ctx.disagree(f"constructed:{FAM_OF.get(name, name)}:layout", f"{name}(...).pdu does not put the field values at the ISO positions",
                          {"class": name, "fields": exp, "pdu": hx(p)}, impl=want, model=m, spec_violated=True, site=f"{name}.pdu")
     ctx.traces_validated += len(con)
 
